@@ -103,6 +103,10 @@ def unary_op(op: str, arg):
     """
     arg = relational_to_piecewise(arg)
     if op == "-":
+        if arg.is_Number:
+            # "-0.5" is a number. As the unevaluated product -1*0.5 it has no decided sign for sympy, and -1*0
+            # even has contradictory assumptions (InconsistentAssumptions, depending on what sympy has cached)
+            return -arg
         return sp.Mul(sp.Integer(-1), arg, evaluate=False)
     if op == "+":
         return arg
